@@ -108,7 +108,7 @@ def assigned_names(stmt):
     tgts = stmt.targets if isinstance(stmt, ast.Assign) else [stmt.target]
     for t in tgts:
       for n in ast.walk(t):
-        if isinstance(n, ast.Name):
+        if isinstance(n, ast.Name) and isinstance(n.ctx, (ast.Store, ast.Del)):
           out.add(n.id)
   return out
 
